@@ -256,8 +256,8 @@ impl RK23 {
                 xold = x;
                 x += h;
 
-                // Prepare dense output
-                if self.dense_output && solout.is_some() {
+                // Prepare dense output (also when the callback asked for this point through XOut)
+                if (self.dense_output || xout.map_or(false, |xo| xo <= x)) && solout.is_some() {
                     cont[0..n].copy_from_slice(&ye);
                     for i in 0..n {
                         cont[n + i] = k1[i];
